@@ -151,9 +151,10 @@ Proof.
               (fun f p i n Cf => src_HB c f0 dr scs sr W Hs1 Hs2 Hsc Hsl D1 D2 f p i n (cx_inv _ _ _ _ _ Cf))
               (fun f p j Cf => src_HC c f0 dr scs sr W Hs1 Hs2 Hsc Hsl D1 D2 f p j (cx_inv _ _ _ _ _ Cf))
               (fun f p j pp es n Cf => src_HD c f0 dr scs sr W Hs1 Hs2 Hsc Hsl D1 D2 f p j pp es n (cx_inv _ _ _ _ _ Cf))
-              (src_HN f0 scs sr)
-              (fun f src0 follow sf Cf => src_HE c f0 dr scs sr W Hs1 Hs2 Hsc Hsl D1 D2 f src0 follow sf (cx_inv _ _ _ _ _ Cf))
-              fuel o osl src dst matches (cst_init f0) s' res C (lok_init c f0 dr dcs) eq_refl Hnul Hm' Rk0 H) as (_ & Rk).
+              (src_HN f0 scs sr) (fun _ _ => True)
+              (fun f src0 follow sf Cf _ => src_HE c f0 dr scs sr W Hs1 Hs2 Hsc Hsl D1 D2 f src0 follow sf (cx_inv _ _ _ _ _ Cf))
+              fuel o osl src dst matches (cst_init f0) s' res C (lok_init c f0 dr dcs) eq_refl Hnul Hm' (fun _ => I)
+              (fun l _ => proj2 (Forall_forall _ l) (fun _ _ => I)) Rk0 H) as (_ & Rk).
   exact Rk.
 Qed.
 
@@ -189,4 +190,74 @@ Proof.
     apply negb_true_iff. apply Hm. exact Hx. }
   pose proof (copy_top_spec c f0 dr dcs (render scs) Hsr fuel o osl src dst matches (cst_init f0) s' res C (lok_init c f0 dr dcs) eq_refl Hnul Hm' H) as C'.
   apply (inv_chain_old f0 dr (s_fs s') (cx_inv _ _ _ _ _ C') a ns d Hch Hold).
+Qed.
+
+(* ---- overlapping roots, a case that closes: dstRoot may lie below srcRoot; the source argument is a
+   single name y that names a directory st of srcRoot, disjoint from dstRoot; no wildcards, no
+   FollowLinks.  Then the walk stays in the static tree below st. ---- *)
+Lemma root_path_sep_render c f m : Forall nm m -> root_path c f (render m) [sep] = inl (render m).
+Proof.
+  intros H. remember (render m) as r eqn:Er. unfold root_path, root_path_fuel. cbn. subst r.
+  rewrite join2_render_sep by auto. reflexivity.
+Qed.
+
+Lemma copy_root_path_name c f scs y sf : Forall nm scs -> nm y ->
+  copy_root_path c f (render scs) y false = inl sf -> sf = render (scs ++ [y]).
+Proof.
+  intros Hs Hy H. unfold copy_root_path in H.
+  assert (E : join2 [sep] y = render [y]) by (apply (join2_names [] y); auto).
+  rewrite E in H.
+  assert (Hne : bytes_eqb (render [y]) [sep] = false).
+  { apply bytes_eqb_neq. unfold render. simpl. intros Q. injection Q as Q. apply (nm_nonempty _ Hy). exact Q. }
+  rewrite Hne in H.
+  pose proof (RootPathP.split_path_render [] y (Forall_cons y Hy (Forall_nil _))) as Esp. simpl app in Esp. rewrite Esp in H.
+  rewrite root_path_sep_render in H by auto. injection H as <-.
+  apply join2_render_name; auto.
+Qed.
+
+Theorem copy_reads_inside_overlap_partial_proof fuel c o osl scs y dcs dst f0 dr sr st s' res :
+  fs_wf f0 ->
+  forallb name_ok dcs = true -> chain f0 (c_root c) dcs dr -> (length dcs < rfuel)%nat ->
+  forallb name_ok scs = true -> chain f0 (c_root c) scs sr -> (length scs + 1 < rfuel)%nat ->
+  ~ inside_dir f0 dr sr ->
+  name_ok y = true -> blookup y (dents f0 sr) = Some st -> is_dir f0 st = true ->
+  ~ inside_dir f0 dr st -> ~ inside_dir f0 st dr ->
+  o_follow o = false ->
+  copy_top fuel c o osl (render scs) y (render dcs) dst None (cst_init f0) = (s', res) ->
+  forall i, In i (s_reads s') -> src_reach f0 st i.
+Proof.
+  intros W Hdn Hdc Hdl Hsn Hsc Hsl Dsr Hyn Hby Hdt D1 D2 Hfo H.
+  pose proof (wf_ctx c f0 dr dcs W Hdn Hdc Hdl) as C.
+  assert (Hsl0 : (length scs < rfuel)%nat) by lia.
+  assert (Hsr : forall f, Ctx c f0 dr dcs f -> forall ino fi, snd (sys_lstat c f (render scs)) = RStat ino fi -> kind_is_dir fi = true).
+  { intros f Cf. eapply (src_root_dir c f0 dr dcs scs sr); eauto. apply W. }
+  apply forallb_name_ok in Hsn. destruct Hsn as [Hs1 Hs2].
+  assert (Hy : nm y /\ nonul y).
+  { assert (G : forallb name_ok [y] = true) by (simpl; rewrite Hyn; reflexivity).
+    apply forallb_name_ok in G. destruct G as [G1 G2]. inversion G1; inversion G2; auto. }
+  destruct Hy as [Hy1 Hy2].
+  assert (Ht1 : Forall nm (scs ++ [y])) by (apply Forall_app; split; auto).
+  assert (Ht2 : Forall nonul (scs ++ [y])) by (apply Forall_app; split; auto).
+  assert (Htc : chain f0 (c_root c) (scs ++ [y]) st) by (eapply chain_snoc; eauto).
+  assert (Htl : (length (scs ++ [y]) < rfuel)%nat) by (rewrite app_length; simpl; lia).
+  assert (Hnul : has_nul y = false) by exact Hy2.
+  assert (Rk0 : rok (Rc f0 st) (cst_init f0)) by (intros i Hi; destruct Hi).
+  destruct (copy_top_spec_r c f0 dr dcs (render scs) Hsr (Rc f0 st) (SPc f0 (scs ++ [y]) st) (SPNc f0 (scs ++ [y]) st)
+              (fun f p i Cf => src_HA c f0 dr (scs ++ [y]) st W Ht1 Ht2 Htc Htl D1 D2 f p i (cx_inv _ _ _ _ _ Cf))
+              (fun f p i n Cf => src_HB c f0 dr (scs ++ [y]) st W Ht1 Ht2 Htc Htl D1 D2 f p i n (cx_inv _ _ _ _ _ Cf))
+              (fun f p j Cf => src_HC c f0 dr (scs ++ [y]) st W Ht1 Ht2 Htc Htl D1 D2 f p j (cx_inv _ _ _ _ _ Cf))
+              (fun f p j pp es n Cf => src_HD c f0 dr (scs ++ [y]) st W Ht1 Ht2 Htc Htl D1 D2 f p j pp es n (cx_inv _ _ _ _ _ Cf))
+              (src_HN f0 (scs ++ [y]) st) (fun src0 follow => src0 = y /\ follow = false)
+              (fun f src0 follow sf Cf Hp E =>
+                 match Hp with conj Es Ef =>
+                   eq_ind_r (fun q => SPc f0 (scs ++ [y]) st q)
+                     (src_root_SP f0 (scs ++ [y]) st)
+                     (copy_root_path_name c f scs y sf Hs1 Hy1
+                        (eq_ind src0 (fun a => copy_root_path c f (render scs) a false = inl sf)
+                           (eq_ind follow (fun b => copy_root_path c f (render scs) src0 b = inl sf) E false Ef) y Es))
+                 end)
+              fuel o osl y dst None (cst_init f0) s' res C (lok_init c f0 dr dcs) eq_refl Hnul
+              (fun l El => ltac:(discriminate El)) (fun _ => conj eq_refl Hfo)
+              (fun l El => ltac:(discriminate El)) Rk0 H) as (_ & Rk).
+  exact Rk.
 Qed.
